@@ -39,6 +39,8 @@ SCRIPTS = [
     # the null version is newer than a version with an id (a suspension in the middle): removing the current version re-exposes it
     [("status", "Enabled"), ("put", 0), ("status", "Suspended"), ("put", 0), ("status", "Enabled"), ("put", 0), ("list",), ("delete-current", 0), ("get", 0), ("list",),
      ("delete-current", 0), ("get", 0), ("list",)],
+    # a key copied onto itself with new metadata is a new version; the version it came from keeps its metadata (read by id in the sweep)
+    [("status", "Enabled"), ("put", 0), ("self-copy", 0), ("list",), ("self-copy", 0), ("status", "Suspended"), ("self-copy", 0), ("list",)],
     # keys with an element named like the bookkeeping directory, deeper than the top level
     [("status", "Enabled"), ("put", 4), ("put", 5), ("put", 6), ("put", 0), ("list",), ("delete", 5), ("put", 4), ("list",), ("delete-current", 4), ("list",)],
 ]
@@ -88,11 +90,37 @@ def history(chk, cl, bk, rnd, n_ops, idmap, interrupt=None, script=None):
         n = len(idmap)
         return n
 
+    force_how = [None]
+
     def do_put(k):
         bi = nblob[0]; nblob[0] += 1; body = blob(bi); blobs[hashlib.md5(body).hexdigest()] = bi
         m = rnd.randrange(len(METAS)); hd = dict(METAS[m][0]); hd.update({"x-amz-meta-" + a: b for a, b in METAS[m][1].items()})
-        how = rnd.choice(["plain", "plain", "plain", "copy", "multipart", "copy-version", "part-copy-version"])
+        how = force_how[0] or rnd.choice(["plain", "plain", "plain", "copy", "multipart", "copy-version", "part-copy-version", "self-copy-replace"])
         srcs = [(k2, i) for k2 in KEYS if k2 != k for i, mk_ in sh.stacks.get(k2, []) if not mk_]
+        if how == "self-copy-replace" and not (sh.stacks.get(k) and not sh.stacks[k][0][1]):
+            how = "plain"         # (nothing to copy onto itself: the key is absent or reads as deleted)
+        if how == "self-copy-replace":
+            # the key copied onto itself with new metadata (x-amz-metadata-directive: REPLACE): a write like any other - in a versioned
+            # bucket a new version with the same bytes; the version it was made from keeps its own metadata
+            nblob[0] -= 1
+            r1 = cl.req("GET", path(k)); o1 = obj_obs(r1)
+            if o1[0] == "obj" and o1[3] == "absent": o1 = o1[:3] + (None,)
+            record("Get %d" % KEYS.index(k), "get %s" % k, o1)
+            if o1[0] != "obj" or o1[1] < 0:
+                return
+            bi = o1[1]
+            hd2 = dict(hd); hd2.update({"x-amz-copy-source": urllib.parse.quote("%s/%s" % (bk, k)), "x-amz-metadata-directive": "REPLACE"})
+            r = cl.req("PUT", path(k), headers=hd2)
+            if r.status != 200 or (r.xml() is not None and r.xml().tag == "Error"):
+                viol("write-failed", "%s write of %r answered %d %s" % (how, k, r.status, r.code)); return
+            v = vnum(r.headers.get("x-amz-version-id"), new=(sh.status == "Enabled"))
+            record("Put %d %d %d" % (KEYS.index(k), bi, m), "%s put %s blob#%d" % (how, k, bi), ("put", v))
+            st = sh.stacks.setdefault(k, [])
+            if sh.status == "Off": sh.stacks[k] = [(None, False)]
+            elif sh.status == "Enabled": st.insert(0, (v if isinstance(v, int) else -9, False))
+            else: sh.stacks[k] = [(None, False)] + [e for e in st if e[0] is not None]
+            chk.count("put:%s:%s" % (how, sh.status))
+            return
         if how.endswith("-version") and (not srcs or sh.status == "Off"):
             how = "plain"         # (no version ids before versioning was ever enabled)
         if how.endswith("-version"):
@@ -298,6 +326,8 @@ def history(chk, cl, bk, rnd, n_ops, idmap, interrupt=None, script=None):
             elif st[0] == "status": set_status(st[1])
             elif st[0] == "list": do_list()
             elif st[0] == "get": do_get(KEYS[st[1]])
+            elif st[0] == "self-copy":
+                force_how[0] = "self-copy-replace"; do_put(KEYS[st[1]]); force_how[0] = None
             chk.traces += 1
         n_ops = 0
     pre = script is None and rnd.random() < 0.6
